@@ -5,9 +5,9 @@ package main
 import (
 	"encoding/json"
 	"fmt"
-	"regexp"
 	"os"
 	"path/filepath"
+	"regexp"
 	"sort"
 	"strings"
 	"sync"
